@@ -86,6 +86,8 @@ impl MultiPeerBackend for RepSocketBackend {
                 },
             )
             .await;
+        #[cfg(feature = "verif-hooks")]
+        crate::verif_hooks::yield_point("rep.peer_connected.after_upsert").await;
         self.fair_queue_inner
             .lock()
             .insert(peer_id.clone(), recv_queue);
@@ -122,6 +124,8 @@ impl SocketSend for RepSocket {
     async fn send(&mut self, mut message: ZmqMessage) -> ZmqResult<()> {
         match self.current_request.take() {
             Some(peer_id) => {
+                #[cfg(feature = "verif-hooks")]
+                crate::verif_hooks::yield_point("rep.send.after_take").await;
                 if let Some(mut peer) = self.backend.peers.get_async(&peer_id).await {
                     if let Some(envelope) = self.envelope.take() {
                         message.prepend(&envelope);
